@@ -18,6 +18,9 @@ fn registry() -> Vec<(&'static str, RunFn, ReplayFn, u64)> {
         ("C07", props::c07::run, props::c07::replay, 7200),
         ("C08", props::c08::run, props::c08::replay, 10800),
         ("C09", props::c09::run, props::c09::replay, 10800),
+        ("C10", props::c10::run, props::c10::replay, 10800),
+        ("C11", props::c11::run, props::c11::replay, 7200),
+        ("C12", props::c12::run, props::c12::replay, 7200),
     ]
 }
 
@@ -88,7 +91,7 @@ fn main() {
             start_watchdog(if tier == Tier::Quick { wd / 4 } else { wd }, id.clone());
             let rep = Report::new(&id);
             // regressions first
-            let rdir = format!("{}/regressions/{}", VERIF_DIR, id);
+            let rdir = format!("{}/regressions/{}", verif_dir(), id);
             let mut regs: Vec<_> = std::fs::read_dir(&rdir)
                 .map(|d| d.filter_map(|e| e.ok()).map(|e| e.path()).collect())
                 .unwrap_or_else(|_| vec![]);
